@@ -205,9 +205,17 @@ theorem manySimplify_err_dvd (pts : List Point) (n d : Int) (h : manySimplify pt
   simp only at h
   split at h
   · rename_i g hg
-    injection h with h
-    subst h
-    exact inv_err_dvd _ _ _ hg
+    split at h
+    · split at h
+      · injection h with h
+        subst h
+        exact ⟨Int.gcd_dvd_right _ _, Int.natCast_nonneg _⟩
+      · injection h with h
+        subst h
+        exact inv_err_dvd _ _ _ hg
+    · injection h with h
+      subst h
+      exact inv_err_dvd _ _ _ hg
   · cases h
 
 theorem manyAdds_good (pts : List (Point × Point × Int)) (n : Int) : Good n (manyAdds pts n) := by
